@@ -27,6 +27,7 @@ type Script struct {
 
 // Trace is what was observed.
 type Trace struct {
+	Spin     bool // the case exceeded its real-time budget twice (a goroutine spins); only Deadlock is set then
 	WStart   []int64
 	WDone    []int64
 	Recv     []int64
@@ -48,14 +49,14 @@ func (s Script) alwaysReady() bool {
 }
 
 // Execute runs the script against the real limit discipline inside a bubble.
-func Execute(t *testing.T, s Script, leakScan bool) Trace {
+func execute1(t *testing.T, s Script, leakScan bool, budget time.Duration) Trace {
 	n := len(s.Gaps)
 	tr := Trace{WStart: make([]int64, 0, n), WDone: make([]int64, 0, n), ClosedAt: -1}
 	var before map[string]string
 	if leakScan {
 		before = bubble.LibGoroutines()
 	}
-	res := bubble.Run(t, func() {
+	res := bubble.RunBudget(t, budget, func() {
 		epoch := time.Now()
 		now := func() int64 { return int64(time.Since(epoch)) }
 		in := make(chan int, s.InCap)
@@ -98,6 +99,10 @@ func Execute(t *testing.T, s Script, leakScan bool) Trace {
 			}
 		}
 	})
+	if res.Spin {
+		// the abandoned bubble may still be writing to tr: report nothing but the verdict
+		return Trace{Spin: true, Deadlock: res.Deadlock, ClosedAt: -1}
+	}
 	tr.Deadlock = res.Deadlock
 	if res.Panic != "" {
 		tr.Deadlock = "harness panic: " + res.Panic
@@ -320,4 +325,15 @@ func Gen(thorough bool) *rapid.Generator[Script] {
 		}
 		return s
 	})
+}
+
+// Execute runs the script inside a bubble. A case that exceeds the real-time budget (a
+// spinning goroutine) is executed once more with a larger budget before it is reported.
+func Execute(t *testing.T, s Script, leakScan bool) Trace {
+	b := bubble.CaseBudget()
+	tr := execute1(t, s, leakScan, b)
+	if tr.Spin && b > 0 {
+		tr = execute1(t, s, leakScan, 3*b)
+	}
+	return tr
 }
